@@ -143,6 +143,8 @@ def run_shards(pid, tier, tcfg, variant, binary, wdir, seed, extra_env=None, rnd
             args += ["-test.run", tcfg["run"]]
         if variant.get("gomaxprocs"):
             env["GOMAXPROCS"] = str(variant["gomaxprocs"])
+        for k, v in (variant.get("env") or {}).items():
+            env[k] = str(v)
         logf = open(os.path.join(wdir, "log-%s.txt" % tag), "w")
         p = subprocess.Popen(args, cwd=wdir, env=env, stdout=logf, stderr=subprocess.STDOUT,
                              preexec_fn=set_limits(cfg.get("vlimit_gb")))
